@@ -201,3 +201,38 @@ Proof.
       exists (1 + r). split; [reflexivity|lia].
     + exists 0. split; [reflexivity|lia].
 Qed.
+
+(* ---------- result monad ---------- *)
+
+Lemma bind_Ok {A B} (m : res A) (f : A -> res B) b :
+  bind m f = Ok b -> exists a, m = Ok a /\ f a = Ok b.
+Proof. destruct m; cbn; intros H; try discriminate. eauto. Qed.
+
+Lemma bind_Ok_l {A B} (m : res A) (f : A -> res B) a : m = Ok a -> bind m f = f a.
+Proof. intros ->. reflexivity. Qed.
+
+(* invert `bind m f = Ok b` hypotheses *)
+Ltac inv_bind H :=
+  let a := fresh "a" in let E := fresh "E" in
+  apply bind_Ok in H; destruct H as [a [E H]].
+
+Ltac inv_ok :=
+  repeat match goal with
+         | H : Ok _ = Ok _ |- _ => inversion H; subst; clear H
+         | H : Panic _ = Ok _ |- _ => discriminate H
+         | H : OutOfFuel = Ok _ |- _ => discriminate H
+         | H : StackOverflow = Ok _ |- _ => discriminate H
+         end.
+
+Lemma nth_error_skipn {A} (l : list A) n m : nth_error (skipn n l) m = nth_error l (n + m).
+Proof.
+  revert l. induction n as [|n IH]; intros l; cbn; [reflexivity|].
+  destruct l as [|x l]; [destruct m; reflexivity|]. apply IH.
+Qed.
+
+Lemma nth_error_firstn {A} (l : list A) n m : (m < n)%nat -> nth_error (firstn n l) m = nth_error l m.
+Proof.
+  revert l m. induction n as [|n IH]; intros l m H; [lia|].
+  destruct l as [|x l]; [destruct m; reflexivity|]. destruct m as [|m]; cbn; [reflexivity|].
+  apply IH. lia.
+Qed.
